@@ -705,3 +705,254 @@ def helper_target_cases(P, res):
                         res.fail(construct, 'hidden:having-index', f'{label}: HAVING refers to target index {p.value.args[2]}', loc(fi))
     if ok:
         res.ok({'sites': ['_compile_group_by', '_compile_order_by'], 'helper_targets': 'invisible (name None), appended, referred to by index', 'cases': 6})
+
+
+# ----------------------------------------------------------------------
+# R-FROMCLAUSE: _compile_from over the clause combinations
+
+def rule_fromclause(P) -> RuleResult:
+    res = RuleResult('R-FROMCLAUSE')
+    res.exhaustive = True
+    fi = _method(P, '_compile_from')
+    NODE = Sym('FROM_NODE')
+    OPEN, CLOSE, CLEAR = Sym('OPEN_DATE'), Sym('CLOSE_DATE'), Sym('CLEAR')
+    EXPR_AST, CEXPR = Sym('EXPR_AST'), Sym('C_EXPR')
+    construct = fi.fq
+    n = 0
+    for expr in ('absent', 'plain', 'aggregate'):
+        for op in (None, OPEN):
+            for cl in (None, True, CLOSE):
+                for inverted in ((False, True) if (op is not None and cl is CLOSE) else (False,)):
+                    n += 1
+
+                    def on_attr(base, attr, ex):
+                        if base == NODE:
+                            return {'expression': None if expr == 'absent' else EXPR_AST, 'open': op, 'close': cl, 'clear': CLEAR}.get(attr, NotImplemented)
+                        return NotImplemented
+
+                    def on_isinstance(v, c, ex):
+                        cn = gname(c)
+                        if v == NODE:
+                            return cn.endswith('From')
+                        if cn.endswith('date'):
+                            return v == CLOSE
+                        return NotImplemented
+
+                    def on_call(fname, fval, recv, args, kwargs, ex, node):
+                        last = str(fname).split('.')[-1]
+                        if last == '_compile':
+                            return None if args and args[0] is None else CEXPR
+                        if last == 'is_aggregate':
+                            return expr == 'aggregate'
+                        return NotImplemented
+
+                    def oracle(term, ex):
+                        if isinstance(term, T) and term.op == 'cmp' and term.args[0] in ('>', '<', '>=', '<=') and {term.args[1], term.args[2]} == {OPEN, CLOSE}:
+                            gt = inverted          # OPEN > CLOSE
+                            o, l, r = term.args
+                            if (l, r) == (OPEN, CLOSE):
+                                return {'>': gt, '>=': gt, '<': not gt, '<=': not gt}[o]
+                            return {'<': gt, '<=': gt, '>': not gt, '>=': not gt}[o]
+                        return None
+                    label = f'FROM {"<" + expr + " expression>" if expr != "absent" else ""} OPEN {"ON d" if op else "absent"}, CLOSE ' \
+                            f'{"ON e" if cl is CLOSE else "(no date)" if cl else "absent"}' + (', e before d' if inverted else '')
+                    for p in Engine(P, on_attr=on_attr, on_isinstance=on_isinstance, on_call=on_call, oracle=oracle).paths(fi, {'self': SELF, fi.params[1]: NODE}):
+                        must_fail = expr == 'aggregate' or inverted
+                        rejected = p.outcome == 'raise' and p.value[0] == 'CompilationError'
+                        if p.outcome == 'raise' and not rejected:
+                            res.fail(construct, f'fromclause:raises', f'{label}: raises {p.value[0]}', loc(fi))
+                            continue
+                        if must_fail != rejected:
+                            why = 'aggregates are not allowed in the FROM clause' if expr == 'aggregate' else 'the CLOSE date must follow the OPEN date'
+                            res.fail(construct, 'fromclause:aggregate' if expr == 'aggregate' and not inverted else 'fromclause:dates',
+                                     f'{label}: the clause is {"rejected" if rejected else "accepted"}; {why}: it must be '
+                                     f'{"rejected with a CompilationError" if must_fail else "accepted"}', loc(fi))
+                            continue
+                        if rejected:
+                            continue
+                        # accepted: the table is the current table updated with exactly these clauses; the condition is returned
+                        upd = T('call', (f'{show(_attr(SELF, "table"))}.update', (), (('open', op), ('close', cl), ('clear', CLEAR))))
+                        got = p.heap.get(_attr(SELF, 'table'))
+                        ok_upd = isinstance(got, T) and got.op == 'call' and got.args[0] == upd.args[0] and not got.args[1] \
+                            and dict(got.args[2]) == dict(upd.args[2])
+                        if not ok_upd:
+                            res.fail(construct, 'fromclause:update', f'{label}: the table must be replaced by table.update(open=, close=, clear=) '
+                                     f'with the values of the clause; got `{show(got)[:120]}`', loc(fi))
+                        want_ret = None if expr == 'absent' else CEXPR
+                        if p.value != want_ret:
+                            res.fail(construct, 'fromclause:condition', f'{label}: the compiled FROM condition must be returned; got `{show(p.value)}`', loc(fi))
+    if not res.findings:
+        res.ok({'function': fi.fq, 'clause_combinations': n, 'rejects': ['aggregate condition', 'CLOSE date before OPEN date'],
+                'applies': 'table.update(open, close, clear)'})
+    # FROM <table name>, FROM (subquery), no FROM
+    for kind in ('none', 'table-known', 'table-unknown', 'subquery'):
+        TAB = Sym('TABLE_OBJECT')
+
+        def on_isinstance2(v, c, ex):
+            cn = gname(c)
+            if v == NODE:
+                return cn.endswith({'table-known': 'Table', 'table-unknown': 'Table', 'subquery': 'Select'}.get(kind, '#'))
+            return NotImplemented
+
+        def on_call2(fname, fval, recv, args, kwargs, ex, node):
+            f = str(fname)
+            if f.endswith('tables.get'):
+                return TAB if kind == 'table-known' else None
+            if f.split('.')[-1] == '_compile':
+                return Sym('C_SUBQUERY')
+            if f.split('.')[-1] == 'SubqueryTable':
+                return T('new', ('SubqueryTable', args))
+            return NotImplemented
+        for p in Engine(P, on_isinstance=on_isinstance2, on_call=on_call2).paths(fi, {'self': SELF, fi.params[1]: None if kind == 'none' else NODE}):
+            got = p.heap.get(_attr(SELF, 'table'))
+            if kind == 'none':
+                good = p.outcome == 'return' and p.value is None and got is None
+            elif kind == 'table-known':
+                good = p.outcome == 'return' and p.value is None and got == TAB
+            elif kind == 'table-unknown':
+                good = p.outcome == 'raise' and p.value[0] == 'CompilationError'
+            else:
+                good = p.outcome == 'return' and p.value is None and got == T('new', ('SubqueryTable', (Sym('C_SUBQUERY'),)))
+            if good:
+                res.ok({'from': kind})
+            else:
+                res.fail(construct, f'fromclause:{kind}', f'FROM with {kind}: {p.outcome} `{show(p.value)[:60]}`, table `{show(got)[:60]}`; expected '
+                         + {'none': 'nothing to change', 'table-known': 'the named table to become the current table',
+                            'table-unknown': 'a CompilationError for an unknown table name',
+                            'subquery': 'the compiled subquery wrapped in a SubqueryTable as the current table'}[kind], loc(fi))
+    return res
+
+
+# ----------------------------------------------------------------------
+# BALANCES / JOURNAL / PRINT: where every field of the statement goes (part of R-FIELDFLOW)
+
+SELECT_FIELDS = ['targets', 'from_clause', 'where_clause', 'group_by', 'order_by', 'pivot_by', 'limit', 'distinct']
+
+
+def transform_cases(P, res):
+    m = P.module(CO)
+    astm = P.module('beanquery.parser.ast')
+    import ast as _ast
+    sel = astm.assigns.get('Select')
+    if not (isinstance(sel, _ast.Call) and len(sel.args) == 2 and sel.args[1].value.split() == SELECT_FIELDS):
+        raise AnalysisError('ast.Select no longer has the field list this rule knows')
+    NODE, COOKED = Sym('STATEMENT'), Sym('COOKED_SELECT')
+    SF, ACC = Sym('SUMMARY_FUNC'), Sym('ACCOUNT_PATTERN')
+    spec = {
+        'transform_balances': ('Balances', {'targets': _attr(COOKED, 'targets'), 'from_clause': _attr(NODE, 'from_clause'),
+                                            'where_clause': _attr(NODE, 'where_clause'), 'group_by': _attr(COOKED, 'group_by'),
+                                            'order_by': _attr(COOKED, 'order_by'), 'pivot_by': None, 'limit': None, 'distinct': None}),
+        'transform_journal': ('Journal', {'targets': _attr(COOKED, 'targets'), 'from_clause': _attr(NODE, 'from_clause'),
+                                          'where_clause': _attr(COOKED, 'where_clause'), 'group_by': None, 'order_by': None,
+                                          'pivot_by': None, 'limit': None, 'distinct': None}),
+    }
+    for fname, (cls, want) in spec.items():
+        fs = m.toplevel_funcs.get(fname)
+        if not fs:
+            raise AnalysisError(f'anchor vanished: compiler.{fname}')
+        fi = fs[-1]
+        n0 = len(res.findings)
+        for sf in (None, SF):
+            for acc in ((None, ACC) if cls == 'Journal' else (None,)):
+                texts = []
+
+                def on_attr(base, attr, ex):
+                    if base == NODE and attr == 'summary_func':
+                        return sf
+                    if base == NODE and attr == 'account':
+                        return acc
+                    return NotImplemented
+
+                def on_call(fn, fval, recv, args, kwargs, ex, node):
+                    f = str(fn)
+                    if f.endswith('parser.parse') or f == 'parse':
+                        texts.append(args[0] if args else None)
+                        return COOKED
+                    if f.endswith('ast.Select') or f == 'Select':
+                        return T('new', ('Select', args, kwargs))
+                    return NotImplemented
+                for p in Engine(P, on_attr=on_attr, on_call=on_call).paths(fi, {fi.params[0]: NODE}):
+                    label = f'{cls.upper()}' + (f' with summary function' if sf else '') + (' with account pattern' if acc else '')
+                    v = p.value
+                    if p.outcome != 'return' or not (isinstance(v, T) and v.op == 'new' and v.args[0] == 'Select') or len(texts) != 1:
+                        res.fail(fi.fq, 'fieldflow:shape', f'{label}: {fname} must parse one SELECT template and return an ast.Select; '
+                                 f'{p.outcome} `{show(v)[:80]}`', loc(fi))
+                        continue
+                    got = dict(zip(SELECT_FIELDS, v.args[1]))
+                    got.update(dict(v.args[2]))
+                    if len(v.args[1]) + len(v.args[2]) != len(SELECT_FIELDS):
+                        res.fail(fi.fq, 'fieldflow:arity', f'ast.Select takes {len(SELECT_FIELDS)} fields; {fname} passes '
+                                 f'{len(v.args[1]) + len(v.args[2])}', loc(fi))
+                    for field, w in want.items():
+                        g = got.get(field)
+                        if g != w:
+                            res.fail(fi.fq, f'fieldflow:{field}', f'the SELECT built for {cls} takes `{field}` from `{show(g)}`; it must come '
+                                     f'from `{show(w)}`' + (' (the clause of the statement is dropped)' if isinstance(w, T) and w.args[0] == NODE else ''), loc(fi))
+                    # the template text
+                    text = texts[0]
+                    parts = list(text.args) if isinstance(text, T) and text.op == 'fstr' else [text]
+                    if sf is not None:
+                        idx = [i for i, x in enumerate(parts) if x == SF]
+                        nxt_ok = all(i + 1 < len(parts) and isinstance(parts[i + 1], str) and parts[i + 1].startswith('(') for i in idx)
+                        if not idx or not nxt_ok or any(contains(x, SF) and x != SF for x in parts):
+                            res.fail(fi.fq, 'fieldflow:summary_func', f'{label}: the summary function of the statement must be applied, as written, '
+                                     f'to the summed positions in the expansion; the template is `{show(text)[:160]}`', loc(fi))
+                    elif any(isinstance(x, T) and contains(x, T('attr', (NODE, 'summary_func'))) for x in parts):
+                        res.fail(fi.fq, 'fieldflow:summary_func', f'{label}: without a summary function nothing of it may reach the template', loc(fi))
+                    if acc is not None:
+                        idx = [i for i, x in enumerate(parts) if contains(x, ACC)]
+                        good = False
+                        if len(idx) == 1 and parts[idx[0]] == ACC and 0 < idx[0] < len(parts) - 1:
+                            before, after = parts[idx[0] - 1], parts[idx[0] + 1]
+                            if isinstance(before, str) and isinstance(after, str):
+                                import re as _re
+                                mm = _re.search(r'account\s*~\s*(["\'])$', before)
+                                good = bool(mm) and after.startswith(mm.group(1)) and 'WHERE' in before.upper()
+                        if not good:
+                            res.fail(fi.fq, 'fieldflow:account', f'{label}: the account pattern must reach the expansion unchanged, as the '
+                                     f'string literal of `WHERE account ~ "<pattern>"` (BQL strings have no escapes: any conversion changes '
+                                     f'the regular expression); the template is `{show(text)[-120:]}`', loc(fi))
+                    elif cls == 'Journal' and any('WHERE' in x.upper() for x in parts if isinstance(x, str)):
+                        res.fail(fi.fq, 'fieldflow:account', f'{label}: without an account pattern the expansion has no WHERE clause', loc(fi))
+        if len(res.findings) == n0:
+            res.ok({'function': fi.fq, 'statement': cls, 'fields_flow': {k: show(v) for k, v in want.items() if v is not None},
+                    'template': 'summary function applied as written' + ('; account pattern embedded unchanged as a string literal' if cls == 'Journal' else '')})
+    # PRINT: FROM clause compiled against the entries table
+    pr = _method(P, '_print')
+    ENT = Sym('ENTRIES_TABLE')
+    seen = {}
+
+    def on_call3(fn, fval, recv, args, kwargs, ex, node):
+        f = str(fn)
+        if f.endswith('tables.get') and args == ('entries',):
+            return ENT
+        if f.split('.')[-1] == '_compile_from':
+            seen['from'] = (args, ex.heap.get(_attr(SELF, 'table')))
+            ex.heap[_attr(SELF, 'table')] = Sym('TABLE_AFTER_FROM')
+            return Sym('C_FROM')
+        if f.split('.')[-1] == 'EvalPrint':
+            return T('new', ('EvalPrint', args))
+        return NotImplemented
+    for p in Engine(P, on_call=on_call3).paths(pr, {'self': SELF, pr.params[1]: NODE}):
+        good = p.outcome == 'return' and p.value == T('new', ('EvalPrint', (Sym('TABLE_AFTER_FROM'), Sym('C_FROM')))) and \
+            seen.get('from') == ((_attr(NODE, 'from_clause'),), ENT)
+        if good:
+            res.ok({'function': pr.fq, 'statement': 'Print', 'fields_flow': {'from_clause': '_compile_from on the entries table'}})
+        else:
+            res.fail(pr.fq, 'fieldflow:print', f'PRINT must compile its FROM clause against the entries table and carry the resulting table '
+                     f'and filter into EvalPrint; got `{show(p.value)[:100]}` with FROM compiled on `{show(seen.get("from"))[:80]}`', loc(pr))
+    # delegation in the compiler
+    for meth, tr in (('_balances', 'transform_balances'), ('_journal', 'transform_journal')):
+        f = _method(P, meth)
+
+        def on_call4(fn, fval, recv, args, kwargs, ex, node, _tr=tr):
+            if str(fn).split('.')[-1] == _tr:
+                return T('new', ('EXPANSION', args))
+            if str(fn).split('.')[-1] == '_compile':
+                return T('new', ('COMPILED', args))
+            return NotImplemented
+        for p in Engine(P, on_call=on_call4).paths(f, {'self': SELF, f.params[1]: NODE}):
+            if p.value == T('new', ('COMPILED', (T('new', ('EXPANSION', (NODE,))),))):
+                res.ok({'handler': meth, 'compiles': f'{tr}(node)'})
+            else:
+                res.fail(f'{CO}:Compiler.{meth}', 'fieldflow:delegate', f'{meth} must compile the SELECT expansion {tr}(node); returns `{show(p.value)[:80]}`', loc(f))
